@@ -302,6 +302,17 @@ func gen(t *rapid.T) Case {
 		c.Config.SplitModel = true
 		vfrun.Label("models-in-own-package")
 	}
+	if !sameBase && rapid.IntRange(0, 7).Draw(t, "federation") == 0 {
+		// a federation subgraph beside the drawn schema's options, with or without explicit_requires
+		c.Files = map[string]string{"schema0.graphqls": sdlgen.FederationProbe}
+		c.Config.ResolverFields = nil
+		c.Config.Federation = []string{}
+		if rapid.Bool().Draw(t, "explicit-requires") {
+			c.Config.Federation = []string{"explicit_requires"}
+		}
+		vfrun.Label("federation:" + strings.Join(c.Config.Federation, ","))
+		return c
+	}
 	if sameBase {
 		c.Config.SchemaGlob = "./**/*.graphqls"
 		vfrun.Label("same-base-name-files:exec:" + c.Config.ExecLayout)
